@@ -720,6 +720,10 @@ func pemBundles(r *ev.Run, pool [][]byte) {
 			} else {
 				r.Count("PEM trailing garbage rejected", 1)
 			}
+			// the single-certificate entry point sees the same input the same way
+			if one, e3 := utils.ParsePEMCertificate(d2); e3 == nil {
+				r.Violation(c, "pem-trailing-garbage-accepted:single-certificate-entry-point", fmt.Sprintf("garbage=%q; ParsePEMCertificate returned a certificate (%d bytes) rec=%v", garbage, len(one.Raw), rec), rec)
+			}
 		})
 	}
 }
